@@ -66,6 +66,16 @@ Example C17_left_out_instance :      (* stdout and skip code 80 equal the defaul
   /\ gen_config_suffix d d = [].
 Proof. repeat split; vm_compute; reflexivity. Qed.
 
+(* the premise is needed for TestCaseConfig::diff as it is written: against defaults that carry an environment it drops the
+   variables whose values DIFFER from the default and keeps the equal ones (the loop removes a key when the values are not
+   equal), so the configured value is lost.  Not reachable from the generators -- they always pass the format defaults,
+   which have no environment -- and therefore an observation, not a finding *)
+Example C17_left_out_needs_default_without_environment :
+  let d := mkY None None None None None None None [([65], [50])] in
+  let c := mkY None None None None None None None [([65], [49])] in
+  ywith_defaults (ydiff c d) d <> ywith_defaults c d.
+Proof. vm_compute. intro H. discriminate H. Qed.
+
 Example C17_one_liner_instance :
   let c := mkY (Some 2) None (Some (86400, 500000000)) (Some false) (Some (-3)%Z) None (Some (5, 0, Some [47; 116; 32; 125])) [([65], [44; 32; 125])] in
   wf_cfg c /\ read_one_liner (one_liner c) = Some c
